@@ -258,6 +258,13 @@ func runWorker(bin, dir string, j job, gomaxprocs int, wall time.Duration) (*wor
 		<-done
 		return nil, out.Bytes(), fmt.Errorf("worker watchdog (%v) fired", wall)
 	}
+	if os.Getenv("VERIF_SHOW_ABORTS") != "" {
+		for _, l := range strings.Split(out.String(), "\n") {
+			if strings.HasPrefix(l, "ABORTED") || strings.HasPrefix(l, "    [") {
+				fmt.Fprintln(os.Stderr, l)
+			}
+		}
+	}
 	raw, err := os.ReadFile(j.Out)
 	if err != nil {
 		return nil, out.Bytes(), err
